@@ -134,6 +134,17 @@ func hostileSkipCases(c *Ctx, n int, seedBase int64) []json.RawMessage {
 	add := func(cs SkipCase) { out = append(out, mustJSON(cs)) }
 	bound := []int{0x00, 0x01, 0x7f, 0x80, 0xff, 0x0b, 0x0c, 0x0d, 0x0f, 0x10}
 	sizes := []string{"7fffffff", "7ffffffc", "7ffffffd", "80000000", "ffffffff", "fffffffe", "fffffffc", "fffffff8", "fffffff7", "00100001", "000fffff", "40000000"}
+	// counts whose product with an element / pair width (1..16 bytes) is just beyond 2^32: ceil(2^32 / w) + {0, 1}; a
+	// skipper that multiplies in 32 bits takes them for (almost) nothing
+	for _, w := range []uint64{2, 3, 4, 5, 6, 8, 9, 10, 12, 16} {
+		c0 := (uint64(1)<<32 + w - 1) / w
+		for _, cnt := range []uint64{c0, c0 + 1, 2*c0 + 1} {
+			if cnt < 1<<31 {
+				sizes = append(sizes, fmt.Sprintf("%08x", cnt))
+			}
+		}
+	}
+	sizes = append(sizes, "20000000", "10000000")
 	// every size field (count, string lengths) of a value x every hostile size; small negatives matter where a
 	// skipper adds a fixed size to a declared length before checking the sign
 	sizeSweep := func(s *SegBuf, t int, note string) {
